@@ -350,7 +350,10 @@ class ListNode(SequenceNode[Tuple[T, ...]], Generic[T]):
                     to_node=node
                 )
             else:
-                if self.all_children_are_leaves() and node.all_children_are_leaves():
+                if self.all_children_are_leaves() and node.all_children_are_leaves() \
+                        and all(c.total_size > 0 for c in self) and all(c.total_size > 0 for c in node):
+                    # Leaves are charged by their size alone, unless that would make removing or inserting one free
+                    # (null and the empty string have size zero)
                     insert_remove_penalty = 0
                 else:
                     insert_remove_penalty = 1
